@@ -452,6 +452,11 @@ def matcher_leaves(ctx):
         # prefix / suffix
         plen = T.typed(('call', RE_ + 'BasePattern::len', (p,)), 'usize')
         for name in ('rigid_prefix_match', 'rigid_suffix_match'):
+            if ctx.crate(cfg).fn(RE_ + name) is None:
+                # inlined into concat_inclusion: C16.R3 then reads the same comparison (rigid_match_at on the pattern's
+                # character sets at the start / end of u) from the accepting paths themselves
+                verdict(ctx, R, True, '%s/absent-read-in-place-by-C16.R3' % name, None, None, cfg)
+                continue
             an = analyse(ctx, cfg, RE_ + name, [], uninterpreted=lambda q: q.startswith(RE_))
             ip, fn = an.ip, an.fn
             kinds = set()
